@@ -406,6 +406,18 @@ impl BudgetEnforcer {
         Ok(())
     }
 
+    /// The rest of a failed document was skipped without being observed and the start of the next
+    /// document has been consumed: under the per-document policy begin that document from a clean
+    /// slate (counters, nesting state and anchors of the abandoned document do not carry over).
+    pub(crate) fn document_started_after_skip(&mut self) {
+        if self.policy == EnforcingPolicy::PerDocument {
+            self.report.reset();
+            self.defined_anchors.clear();
+            self.depth = 0;
+            self.containers.clear();
+        }
+    }
+
     fn bump_nodes(&mut self) -> Result<(), BudgetBreach> {
         self.report.nodes += 1;
         if self.report.nodes > self.budget.max_nodes {
